@@ -137,12 +137,12 @@ Definition exits_early (c : consumer) (pre : list value) : bool :=
 Lemma good_inl : forall {A} (a : A), accgood (inl a : acc A).
 Proof. intros. exists a. reflexivity. Qed.
 
-Ltac perr H1 H2 a :=
+Ltac perr H1 H2 a rest :=
   match goal with
   | |- context [fold_stop ?St ?f ?s ?l] =>
     destruct (fold_stop St f s l) eqn:ES;
-    [ destruct (stop_early_ignores_rest St f _ s (RErr a :: _) ES) as [-> _]; reflexivity
-    | destruct (no_stop_reaches_error St f _ _ H1 H2 _ s a _ (good_inl _) ES) as [-> _]; reflexivity ]
+    [ destruct (stop_early_ignores_rest St f l s (RErr a :: rest) ES) as [-> _]; reflexivity
+    | destruct (no_stop_reaches_error St f _ _ H1 H2 l s a rest (good_inl _) ES) as [-> _]; reflexivity ]
   end.
 
 Theorem consume_propagates_error : forall c it pre e rest r,
@@ -153,30 +153,30 @@ Theorem consume_propagates_error : forall c it pre e rest r,
 Proof.
   intros c it pre e rest r HS HC. split. { eapply consumers_are_folds; eauto. }
   destruct c; cbn [consumer_spec exits_early] in *; try discriminate; inversion HC; subst; clear HC.
-  - perr collect_h1 collect_h2 e.
-  - perr collect_h1 collect_h2 e.
-  - perr count_h1 count_h2 e.
-  - perr (binop_h1 Z.add) (binop_h2 Z.add) e.
-  - perr (binop_h1 Z.mul) (binop_h2 Z.mul) e.
-  - perr (minmax1_h1 false) (minmax1_h2 false) e.
-  - perr (minmax1_h1 true) (minmax1_h2 true) e.
-  - perr minmax2_h1 minmax2_h2 e.
-  - perr last_h1 last_h2 e.
-  - perr consume_h1 consume_h2 e.
-  - perr (anyall_h1 p true) (anyall_h2 p true) e.
-  - perr (anyall_h1 p false) (anyall_h2 p false) e.
-  - perr (find_h1 p) (find_h2 p) e.
+  - perr collect_h1 collect_h2 e rest.
+  - perr collect_h1 collect_h2 e rest.
+  - perr count_h1 count_h2 e rest.
+  - perr (binop_h1 Z.add) (binop_h2 Z.add) e rest.
+  - perr (binop_h1 Z.mul) (binop_h2 Z.mul) e rest.
+  - perr (minmax1_h1 false) (minmax1_h2 false) e rest.
+  - perr (minmax1_h1 true) (minmax1_h2 true) e rest.
+  - perr minmax2_h1 minmax2_h2 e rest.
+  - perr last_h1 last_h2 e rest.
+  - perr consume_h1 consume_h2 e rest.
+  - perr (anyall_h1 p true) (anyall_h2 p true) e rest.
+  - perr (anyall_h1 p false) (anyall_h2 p false) e rest.
+  - perr (find_h1 p) (find_h2 p) e rest.
   - destruct (fold_stop _ (f_position p) (0, inl VNull) (ok_all pre)) eqn:ES.
     + destruct (stop_early_ignores_rest _ (f_position p) _ (0, inl VNull) (RErr e :: rest) ES) as [-> _]. reflexivity.
     + assert (G : posgood (0, inl VNull)) by (exists VNull; reflexivity).
       destruct (no_stop_reaches_error _ (f_position p) posgood poserr (position_h1 p) (position_h2 p) _ _ e rest G ES) as [He _].
       unfold poserr in He. rewrite He. reflexivity.
-  - perr (fold_h1 f) (fold_h2 f) e.
-  - perr (for_h1 quiet) (for_h2 quiet) e.
+  - perr (fold_h1 f) (fold_h2 f) e rest.
+  - perr (for_h1 quiet) (for_h2 quiet) e rest.
 Qed.
 
 (* the failing element is pulled iff the loop has not returned before it *)
-Theorem error_pulled_iff_no_early_exit : forall St f good isErr,
+Theorem error_pulled_iff_no_early_exit : forall St f (good : St -> Prop) (isErr : N -> St -> Prop),
   (forall s o tc s', good s -> f s o = (tc, s', false) -> good s') ->
   (forall s e, good s -> exists tc s', f s (OErr e) = (tc, s', true) /\ isErr e s') ->
   forall pre s e rest, good s ->
